@@ -146,10 +146,10 @@ structure Variant where
   back-references means another type below other enclosing types; for a function type shared by two
   unions the assumption made for one direction answered the converse question of the parameter (R7) -/
   asmKeyedByIdsOnly : Bool := false
-  /-- PROPOSED, not in the code (notes/C02-fixes/15; the only flag that is not a historical rule):
-  `intersect_pair` has an arm for two partial types — the partial type with the fields of both — instead
-  of falling back to "keep the left operand if the two overlap" (narrowing functions, `Narrow.lean`) -/
-  partialIntersectExact : Bool := false
+  /-- before 02d463a: `intersect_pair` had no arm for two partial types and fell back to "keep the left
+  operand if the two overlap" — a written `'readable & 'writable` resolved to `'readable` alone
+  (narrowing functions, `Narrow.lean`) -/
+  partialIntersectKeepsLeft : Bool := false
   deriving DecidableEq, Repr, Inhabited
 
 
